@@ -1,6 +1,10 @@
 import XmpModel.MixLoop
 import XmpModel.Gen.DepackLimits
 import XmpProofs.MixWindow
+import XmpProps.C16
+import XmpProps.C17
+import XmpProps.C18
+import XmpProps.C20
 /-!
 # C02 — work and memory bounded by real input size
 
@@ -11,9 +15,11 @@ voice and tick; a depacker growth request above the ceiling is refused; every
 depacker that grows an output buffer carries a ceiling derived from
 `LIBXMP_DEPACK_LIMIT` (generated list, re-proved on every run).
 
-Termination / size theorems that live with other properties and are audited
-there: scan fuel bound (C18), marker-skipping loop of `set_position` (C17),
-tick size cap (C16), sample allocation ≤ bytes present + guard (C20).
+Termination / size theorems that live with other properties (scan fuel bound
+— C18, marker-skipping loop of `set_position` — C17, order-skipping loop of
+`next_order` and tick size cap — C16, sample allocation ≤ bytes present + guard
+— C20) are re-exported at the end of this file in C02's vocabulary
+(`Xmp.C02.C02_*`), so that the audit of this module covers them too.
 CPU time and RSS of parsers and entropy decoders are measured by the search
 (harness/c01_fuzz.c in `res` mode), not proved.
 -/
@@ -107,3 +113,77 @@ example : iterations [.zero, .some 1, .zero, .some 5, .zero, .zero, .stop] 4 4 =
 example : grow 100 10 60 = some 60 ∧ grow 100 10 101 = none := by decide
 
 end Xmp.MixLoop
+
+/-! ## "Testing, loading, scanning and rendering one frame always return"
+
+Re-exports of the termination and size theorems proved with the properties that own the models
+(C16 sequencer/tick size, C17 position control, C18 scan, C20 sample loader), restated for C02:
+each says that a loop whose trip count a file could try to inflate (order list full of markers,
+self-referential jumps, declared sample lengths, tempo/rate combinations) is bounded by the real
+size of the data or by a fixed limit of the library. -/
+namespace Xmp.C02
+
+/-- **C02_next_order_terminates** (rendering one frame, sequencer): the order-skipping loop of
+`next_order` (`do { p->ord++ … } while (mod->xxo[p->ord] >= mod->pat)`, wrapping to the restart
+position / entry point) ends within `len + 1 ≤ 257` iterations for every well-formed module whose
+kept sequences reach a pattern, from every `p->ord ≥ -1` — no order list (all markers, all
+out-of-range patterns behind the first valid one, jump targets past the list) makes it spin. -/
+theorem C02_next_order_terminates {m : Seq.SeqMod} (h : Seq.WF m) (ho : Seq.OrdWF m) {seq : Int}
+    (hs : 0 ≤ seq ∧ seq < m.numSeq) (ord : Int) (hord : -1 ≤ ord) (rg : Bool) :
+    (Seq.nextOrderLoop m seq (m.len + 1).toNat ord rg).isSome = true ∧ (m.len + 1).toNat ≤ 257 := by
+  obtain ⟨o, rg', e, _⟩ := Seq.C16_next_order_terminates h ho hs ord hord rg
+  exact ⟨by rw [e]; rfl, by have := h.facts.len; omega⟩
+
+/-- **C02_play_frame_returns**: hence every `xmp_play_frame` (sequencer kernel) returns, from
+every state satisfying the boundary invariant and for all effect outcomes. -/
+theorem C02_play_frame_returns {m : Seq.SeqMod} (h : Seq.WF m) (ho : Seq.OrdWF m) {s : Seq.St} (hc : Seq.Core m s)
+    (eA eB : Seq.Eff) : Seq.playFrame m s eA eB ≠ .diverge :=
+  (Seq.C16_frame_returns h ho hc eA eB).1
+
+/-- **C02_set_position_terminates**: every position-control call (`xmp_set_position`,
+`xmp_next_position`, `xmp_prev_position`, `xmp_seek_time`) returns: the marker-skipping loop of
+`set_position` is bounded by `len + 1` whatever 0xfe/0xff markers the order list holds (the
+former hang F5 is repaired in /repo). -/
+theorem C02_set_position_terminates (m : Control.CMod) (s : Control.St) (he : ∀ q, 0 ≤ m.entry q) (p t : Int) :
+    (Control.xmpSetPosition m s p).isSome = true ∧ (Control.xmpNextPosition m s).isSome = true ∧
+    (Control.xmpPrevPosition m s).isSome = true ∧ (Control.xmpSeekTime m s t).isSome = true :=
+  Control.C17_marker_skipping_terminates m s he p t
+
+/-- **C02_scan_terminates** (scanning): `scan_module`'s outer loop ends within
+`(len + 1)·514 + 1` iterations — a bound in the real length of the order list — whatever jumps,
+breaks and pattern loops the patterns contain. -/
+theorem C02_scan_terminates (m : LinFlow.LinMod) (ep chain : Nat) (ctl : List Nat) (info : List LinFlow.OrdInfo)
+    (hrst : m.rst < m.len) (hep : ep < m.len) :
+    (LinFlow.scanModule m ep chain ctl info).fuelOut = false ∧ LinFlow.scanFuel m = (m.len + 1) * 514 + 1 :=
+  ⟨LinFlow.C18_scan_terminates m ep chain ctl info hrst hep, rfl⟩
+
+/-- **C02_ticksize_bound** (rendering one frame, mixer): for ALL rates, time factors and tempos
+the tick size is at most `XMP_MAX_FRAMESIZE / 4` frames and the output at most
+`XMP_MAX_FRAMESIZE` bytes, so (`C02_mixer_iterations`) the per-voice segment loop runs at most
+`XMP_MAX_FRAMESIZE / 2` iterations per tick — a fixed limit of the library. -/
+theorem C02_ticksize_bound (freq tfN tfD rrN rrD bpm : Int) (mono bit8 : Bool) (o : List MixLoop.Step) :
+    Tick.prepare freq tfN tfD rrN rrD bpm ≤ Tick.capTicks ∧
+    Tick.bufferSize (Tick.prepare freq tfN tfD rrN rrD bpm) mono bit8 ≤ Gen.PlayerConsts.maxFramesize ∧
+    MixLoop.iterations o (Tick.prepare freq tfN tfD rrN rrD bpm).toNat (Tick.prepare freq tfN tfD rrN rrD bpm).toNat
+      ≤ 2 * Tick.capTicks.toNat := by
+  have t := Tick.C16_ticksize freq tfN tfD rrN rrD bpm mono bit8
+  have i := MixLoop.C02_mixer_iterations o (Tick.prepare freq tfN tfD rrN rrD bpm).toNat
+  exact ⟨t.2.1, Tick.C16_framesize_bound freq tfN tfD rrN rrD bpm mono bit8, by have := t.2.1; omega⟩
+
+/-- **C02_sample_alloc_le** (loading): what `libxmp_load_sample` allocates for one sample is
+bounded by the bytes really present in the file (`2·avail + 20`, `4·avail + 20` for ADPCM), not
+by the declared sample length; with `SAMPLE_FLAG_NOLOAD` by the caller's buffer. -/
+theorem C02_sample_alloc_le (flags : Nat) (h : Sample.Hdr) (f : Option Bytes) (buffer : Bytes)
+    (hbuf : Sample.BufferOk flags h buffer) :
+    (Sample.fl flags Sample.Gen.SAMPLE_FLAG_NOLOAD = false →
+      Sample.outBytes flags h f ≤ (if Sample.fl flags Sample.Gen.SAMPLE_FLAG_ADPCM then 2 * (Sample.avail f - 16) else Sample.avail f) ∧
+      Sample.totalAlloc flags h f ≤ (if Sample.fl flags Sample.Gen.SAMPLE_FLAG_ADPCM then 4 * Sample.avail f else 2 * Sample.avail f) + 20) ∧
+    (Sample.fl flags Sample.Gen.SAMPLE_FLAG_NOLOAD = true →
+      Sample.outBytes flags h f ≤ buffer.length ∧ Sample.totalAlloc flags h f ≤ 2 * buffer.length + 20) :=
+  Sample.alloc_le flags h f buffer hbuf
+
+/-! Non-vacuity: the hypotheses of the re-exports are satisfiable (instances proved with the owners). -/
+example := C02_next_order_terminates Seq.exMod_wf Seq.exMod_ordwf (seq := 0) (by decide) 2 (by decide) false
+example : (Tick.prepare 49170 100 1 250 1 125, Tick.capTicks) = (6146, 6146) := by decide
+
+end Xmp.C02
